@@ -46,6 +46,13 @@ type keptReorg struct {
 	sn, en     uint64
 }
 
+func val(f *felt.Felt) felt.Felt {
+	if f == nil {
+		return felt.Felt{}
+	}
+	return *f
+}
+
 func (r *run) addExtra(key, what string) {
 	r.mu.Lock()
 	defer r.mu.Unlock()
@@ -77,16 +84,17 @@ func (r *run) startNode() {
 		defer n.readers.Done()
 		var kept []keptHead
 		for b := range n.heads.Recv() {
+			hash, parent := val(b.Hash), val(b.ParentHash)
 			r.mu.Lock()
 			if !r.closed {
-				t, ok := w.byHash[*b.Hash]
+				t, ok := w.byHash[hash]
 				if !ok {
 					t = -1
 				}
 				r.log(vh.J{"ev": "NewHead", "tag": t, "h": int(b.Number)})
 			}
 			r.mu.Unlock()
-			kept = append(kept, keptHead{b: b, hash: *b.Hash, parent: *b.ParentHash, number: b.Number, txs: len(b.Transactions)})
+			kept = append(kept, keptHead{b: b, hash: hash, parent: parent, number: b.Number, txs: len(b.Transactions)})
 		}
 		for _, k := range kept {
 			if k.b.Hash == nil || *k.b.Hash != k.hash || k.b.ParentHash == nil || *k.b.ParentHash != k.parent ||
@@ -100,20 +108,21 @@ func (r *run) startNode() {
 		defer n.readers.Done()
 		var kept []keptReorg
 		for m := range n.reorgs.Recv() {
+			cp := keptReorg{m: m, start: val(m.StartBlockHash), end: val(m.EndBlockHash), sn: m.StartBlockNum, en: m.EndBlockNum}
 			r.mu.Lock()
 			if !r.closed {
-				st, ok1 := w.byHash[*m.StartBlockHash]
-				en, ok2 := w.byHash[*m.EndBlockHash]
+				st, ok1 := w.byHash[cp.start]
+				en, ok2 := w.byHash[cp.end]
 				if !ok1 {
 					st = -1
 				}
 				if !ok2 {
 					en = -1
 				}
-				r.log(vh.J{"ev": "ReorgMsg", "s": st, "e": en, "sn": int(m.StartBlockNum), "en": int(m.EndBlockNum)})
+				r.log(vh.J{"ev": "ReorgMsg", "s": st, "e": en, "sn": int(cp.sn), "en": int(cp.en)})
 			}
 			r.mu.Unlock()
-			kept = append(kept, keptReorg{m: m, start: *m.StartBlockHash, end: *m.EndBlockHash, sn: m.StartBlockNum, en: m.EndBlockNum})
+			kept = append(kept, cp)
 		}
 		for _, k := range kept {
 			if k.m.StartBlockHash == nil || *k.m.StartBlockHash != k.start || k.m.EndBlockHash == nil || *k.m.EndBlockHash != k.end ||
